@@ -333,12 +333,24 @@ push0_set_send_buf_len(void *arg, const void *buf, size_t sz, nni_type t)
 	push0_sock *s = arg;
 	int         val;
 	nng_err     rv;
+	nni_aio    *aio;
 
 	if ((rv = nni_copyin_int(&val, buf, sz, 0, 8192, t)) != NNG_OK) {
 		return (rv);
 	}
 	nni_mtx_lock(&s->m);
 	rv = nni_lmq_resize(&s->wq, (size_t) val);
+	// There may be room now for senders that were blocked on a full
+	// buffer: admit them, in order, before anybody new gets in.
+	while ((!nni_lmq_full(&s->wq)) &&
+	    ((aio = nni_list_first(&s->aq)) != NULL)) {
+		nni_msg *m   = nni_aio_get_msg(aio);
+		size_t   len = nni_msg_len(m);
+		nni_aio_list_remove(aio);
+		nni_lmq_put(&s->wq, m);
+		nni_aio_set_msg(aio, NULL);
+		nni_aio_finish(aio, 0, len);
+	}
 	// Changing the size of the queue can affect our readiness.
 	if (!nni_lmq_full(&s->wq)) {
 		nni_pollable_raise(&s->writable);
